@@ -1,5 +1,5 @@
 (* C05 — parallel loops.  Property theorems only; proofs live in ForProofs.v. *)
-From OTV Require Import Lib.Tac Params ForModel ForProofs.
+From OTV Require Import Lib.Tac Params ForModel ForProofs RvecModel RvecProofs.
 Local Open Scope Z_scope.
 
 (* simple_partitioner over blocked_range, every begin < end (no bound on the size), every grain >= 1:
@@ -35,3 +35,29 @@ Proof.
   repeat split; auto; try (apply B; auto). intros k Hk Hx. exact (strided_complete f l s k Hs Hl Hk Hx).
 Qed.
 Print Assumptions strided_loop_indices.
+
+
+(* The range pool of auto_partitioner / affinity_partitioner (range_vector<Range, 8>, RvecModel: the ring indices are explicit).
+   For EVERY non-empty range with grain >= 1 and EVERY sequence of split_to_fill(any depth) / run-back-and-pop / offer-front-and-pop:
+   the ranges the body was run on tile [begin, lo) in ascending order, the ranges offered to thieves tile [hi, end) (each the next
+   piece below the previous one), the ranges still pooled tile [lo, hi) from front() down to back() - all pieces non-empty: every
+   subrange handed out is non-empty, they are pairwise disjoint, and together with the pool they cover exactly the range. *)
+Theorem range_pool_tiles_the_range : forall r ops, rb r < re r -> 1 <= rg r ->
+  let '(v, ran, off) := rexec (rv_init r) ops [] [] in
+  v = fst (rrun (rv_init r) ops) /\
+  exists lo hi, asc_chain (rb r) ran lo /\ desc_chain (rg r) hi (live v) lo /\ desc_r (re r) off hi.
+Proof.
+  intros r ops H1 H2.
+  assert (Hp := rexec_same_pool ops (rv_init r) [] []).
+  assert (Ht := rexec_tiles (rb r) (re r) (rg r) ops (rv_init r) [] [] (rb r) (re r) (PInv_init r H1 H2) eq_refl eq_refl).
+  destruct (rexec (rv_init r) ops [] []) as [[v ran] off]. cbn [fst] in Hp. split; [auto|].
+  destruct Ht as (lo & hi & (_ & _ & HC) & HA & HD). exists lo, hi. auto.
+Qed.
+Print Assumptions range_pool_tiles_the_range.
+
+(* non-vacuity: this script wraps the ring; input and output were produced by the real range_vector<blocked_range<long>, 8> (driver mode rvec) *)
+Example range_pool_example :
+  run_rvec [0; 1000; 1;  1; 8;  3; 0;  3; 0;  1; 8;  2; 0;  3; 0;  1; 12;  2; 0;  2; 0;  3; 0;  1; 255;  2; 0] =
+  [7; 0; 8; 500; 1000; 1; 7; 1; 7; 250; 500; 2; 7; 2; 6; 0; 2; 7; 0; 3; 8; 7; 2; 6; 125; 250; 3; 7; 3; 5; 1; 3; 7; 3; 4; 10; 0; 3; 6; 4; 5; 10; 7; 3; 5;
+   62; 125; 4; 7; 4; 4; 0; 4; 5; 5; 6; 10; 7; 4; 4; -7; 31; 62; 5; 15; 31; 6; 7; 15; 7; 6; 7; 10].
+Proof. vm_compute. reflexivity. Qed.
